@@ -5,3 +5,4 @@ import SedpackModel.Iter
 import SedpackModel.Pipeline
 import SedpackModel.Tree
 import SedpackModel.Crash
+import SedpackModel.Select
